@@ -90,8 +90,9 @@ Definition num2bin (x : bytes) (n : Z) : option bytes :=
 
 (* ------------------------------------------------------------------ *)
 (* opcodes on (main, alt); None = the script fails.
-   `lim4`: the variant in which the index/position operand of OP_PICK, OP_ROLL and OP_SPLIT must
-   be at most 4 bytes long (NOT Bitcoin SV; used only to describe a finding class). *)
+   `lim`: the variant in which OP_SIZE and OP_DEPTH fail when the number they would push exceeds
+   2^31-1 (NOT Bitcoin SV: the library routes these two through an i32; an item of 2 GiB or a stack
+   of 2^31 entries is needed to tell the difference).  The specification proper is `lim = false`. *)
 Definition un (f : Z -> Z) (s : stk) : option stk :=
   match s with x :: r => Some (num_enc (f (num_of x)) :: r) | _ => None end.
 Definition bin (f : Z -> Z -> Z) (s : stk) : option stk :=
@@ -105,9 +106,9 @@ Definition bitop (f : N -> N -> N) (s : stk) : option stk :=
   | b :: a :: r => if Nat.eqb (length a) (length b) then Some (map2 f a b :: r) else None
   | _ => None
   end.
-Definition too_long (lim4 : bool) (n : bytes) : bool := lim4 && Nat.ltb 4 (length n).
+Definition too_big (lim : bool) (n : nat) : bool := lim && (2147483647 <? Z.of_nat n).
 
-Definition main_op (lim4 : bool) (o : N) (s : stk) : option stk :=
+Definition main_op (lim : bool) (o : N) (s : stk) : option stk :=
   match o with
   | 0%N => Some ([] :: s)
   | 79%N => Some (num_enc (-1) :: s)
@@ -116,7 +117,7 @@ Definition main_op (lim4 : bool) (o : N) (s : stk) : option stk :=
   | 97%N | 176%N | 179%N | 180%N | 181%N | 182%N | 183%N | 184%N | 185%N | 171%N => Some s
   | 105%N (* VERIFY *) => match s with x :: r => if truthy x then Some r else None | _ => None end
   | 115%N (* IFDUP *) => match s with x :: r => Some (if truthy x then x :: x :: r else x :: r) | _ => None end
-  | 116%N (* DEPTH *) => Some (num_enc (Z.of_nat (length s)) :: s)
+  | 116%N (* DEPTH *) => if too_big lim (length s) then None else Some (num_enc (Z.of_nat (length s)) :: s)
   | 117%N (* DROP *) => match s with _ :: r => Some r | _ => None end
   | 118%N (* DUP *) => match s with x :: r => Some (x :: x :: r) | _ => None end
   | 119%N (* NIP *) => match s with b :: _ :: r => Some (b :: r) | _ => None end
@@ -124,14 +125,14 @@ Definition main_op (lim4 : bool) (o : N) (s : stk) : option stk :=
   | 121%N (* PICK *) =>
       match s with
       | n :: r => let k := num_of n in
-                  if too_long lim4 n || (k <? 0) || (Z.of_nat (length r) <=? k) then None
+                  if (k <? 0) || (Z.of_nat (length r) <=? k) then None
                   else match nth_error r (Z.to_nat k) with Some x => Some (x :: r) | None => None end
       | _ => None
       end
   | 122%N (* ROLL *) =>
       match s with
       | n :: r => let k := num_of n in
-                  if too_long lim4 n || (k <? 0) || (Z.of_nat (length r) <=? k) then None
+                  if (k <? 0) || (Z.of_nat (length r) <=? k) then None
                   else match nth_error r (Z.to_nat k) with
                        | Some x => Some (x :: firstn (Z.to_nat k) r ++ skipn (S (Z.to_nat k)) r)
                        | None => None
@@ -151,7 +152,7 @@ Definition main_op (lim4 : bool) (o : N) (s : stk) : option stk :=
   | 127%N (* SPLIT *) =>
       match s with
       | n :: x :: r => let k := num_of n in
-                       if too_long lim4 n || (k <? 0) || (Z.of_nat (length x) <? k) then None
+                       if (k <? 0) || (Z.of_nat (length x) <? k) then None
                        else Some (skipn (Z.to_nat k) x :: firstn (Z.to_nat k) x :: r)
       | _ => None
       end
@@ -161,7 +162,7 @@ Definition main_op (lim4 : bool) (o : N) (s : stk) : option stk :=
       | _ => None
       end
   | 129%N (* BIN2NUM *) => un (fun a => a) s
-  | 130%N (* SIZE *) => match s with x :: r => Some (num_enc (Z.of_nat (length x)) :: x :: r) | _ => None end
+  | 130%N (* SIZE *) => match s with x :: r => if too_big lim (length x) then None else Some (num_enc (Z.of_nat (length x)) :: x :: r) | _ => None end
   | 131%N (* INVERT *) => match s with x :: r => Some (map inv_byte x :: r) | _ => None end
   | 132%N => bitop N.land s
   | 133%N => bitop N.lor s
@@ -207,12 +208,12 @@ Definition main_op (lim4 : bool) (o : N) (s : stk) : option stk :=
   | _ => None
   end.
 
-Definition spec_op (lim4 : bool) (o : N) (st : stk * stk) : option (stk * stk) :=
+Definition spec_op (lim : bool) (o : N) (st : stk * stk) : option (stk * stk) :=
   let '(s, a) := st in
   match o with
   | 107%N (* TOALTSTACK *) => match s with x :: r => Some (r, x :: a) | _ => None end
   | 108%N (* FROMALTSTACK *) => match a with x :: r => Some (x :: s, r) | _ => None end
-  | _ => match main_op lim4 o s with Some s' => Some (s', a) | None => None end
+  | _ => match main_op lim o s with Some s' => Some (s', a) | None => None end
   end.
 
 (* ------------------------------------------------------------------ *)
@@ -222,7 +223,7 @@ Inductive fres : Type := FRun (st : fstate) | FDone (s a : stk) | FFail.
 
 Definition all_true (l : list bool) : bool := forallb (fun b => b) l.
 
-Definition step_tok (lim4 : bool) (t : tok) (st : fstate) : fres :=
+Definition step_tok (lim : bool) (t : tok) (st : fstate) : fres :=
   let '(mkF s a ve vl ret) := st in
   match t with
   | TPush _ d => if all_true ve && negb ret then FRun (mkF (d :: s) a ve vl ret) else FRun st
@@ -254,17 +255,17 @@ Definition step_tok (lim4 : bool) (t : tok) (st : fstate) : fres :=
         | _ => FRun (mkF s a ve vl true)
         end
       else
-        match spec_op lim4 o (s, a) with
+        match spec_op lim o (s, a) with
         | Some (s', a') => FRun (mkF s' a' ve vl ret)
         | None => FFail
         end
   end.
 
-Fixpoint exec_flat (lim4 : bool) (ts : list tok) (st : fstate) : option (stk * stk) :=
+Fixpoint exec_flat (lim : bool) (ts : list tok) (st : fstate) : option (stk * stk) :=
   match ts with
   | [] => match f_exec st with [] => Some (f_main st, f_alt st) | _ => None end
-  | t :: r => match step_tok lim4 t st with
-              | FRun st' => exec_flat lim4 r st'
+  | t :: r => match step_tok lim t st with
+              | FRun st' => exec_flat lim r st'
               | FDone s a => Some (s, a)
               | FFail => None
               end
@@ -272,7 +273,7 @@ Fixpoint exec_flat (lim4 : bool) (ts : list tok) (st : fstate) : option (stk * s
 
 Definition exec_script (ts : list tok) (st : stk * stk) : option (stk * stk) :=
   exec_flat false ts (mkF (fst st) (snd st) [] [] false).
-Definition exec_script_lim4 (ts : list tok) (st : stk * stk) : option (stk * stk) :=
+Definition exec_script_lim31 (ts : list tok) (st : stk * stk) : option (stk * stk) :=
   exec_flat true ts (mkF (fst st) (snd st) [] [] false).
 
 (* ------------------------------------------------------------------ *)
@@ -297,32 +298,24 @@ Definition cls_shift (ts : list tok) : bool := has_op (fun o => (o =? 152)%N || 
 Definition cls_num2bin (ts : list tok) : bool := has_op (fun o => (o =? 128)%N) ts.
 Definition cls_verif (ts : list tok) : bool := has_op (fun o => (o =? 101)%N || (o =? 102)%N) ts.
 
-(* an OP_ELSE / OP_ENDIF that does not belong to an open conditional, or a second OP_ELSE *)
-Fixpoint stray_from (open : list bool) (ts : list tok) : bool :=
+(* A second OP_ELSE for the same OP_IF.  The library's parser keeps it as an ordinary opcode inside
+   the else-branch (true = this level has seen its OP_ELSE); it fails when executed but goes
+   unnoticed when that branch is not taken.  OP_ELSE / OP_ENDIF outside any conditional are ordinary
+   top-level opcodes for the parser and always reach the interpreter, which refuses them. *)
+Fixpoint second_else_from (open : list bool) (ts : list tok) : bool :=
   match ts with
   | [] => false
   | TOp o :: r =>
-      if (99 <=? o)%N && (o <=? 102)%N then stray_from (false :: open) r
+      if (99 <=? o)%N && (o <=? 102)%N then second_else_from (false :: open) r
       else if (o =? 103)%N then
-        match open with false :: op' => stray_from (true :: op') r | _ => true end
+        match open with
+        | false :: op' => second_else_from (true :: op') r
+        | true :: _ => true
+        | [] => second_else_from [] r
+        end
       else if (o =? 104)%N then
-        match open with _ :: op' => stray_from op' r | [] => true end
-      else stray_from open r
-  | TPush _ _ :: r => stray_from open r
+        match open with _ :: op' => second_else_from op' r | [] => second_else_from [] r end
+      else second_else_from open r
+  | TPush _ _ :: r => second_else_from open r
   end.
-Definition cls_unbalanced (ts : list tok) : bool := stray_from [] ts.
-
-(* an index / position operand of more than 4 bytes reaches OP_PICK, OP_ROLL or OP_SPLIT:
-   the two variants of the semantics disagree *)
-Fixpoint stk_eqb (a b : stk) : bool :=
-  match a, b with
-  | [], [] => true
-  | x :: a', y :: b' => bytes_eqb x y && stk_eqb a' b'
-  | _, _ => false
-  end.
-Definition cls_long_index (ts : list tok) (st : stk * stk) : bool :=
-  match exec_script ts st, exec_script_lim4 ts st with
-  | Some (s1, a1), Some (s2, a2) => negb (stk_eqb s1 s2 && stk_eqb a1 a2)
-  | None, None => false
-  | _, _ => true
-  end.
+Definition cls_second_else (ts : list tok) : bool := second_else_from [] ts.
